@@ -41,6 +41,7 @@ type c19Mw struct {
 	Num  int64  `json:"num,omitempty"`
 	Den  int64  `json:"den,omitempty"`
 	MaxR int    `json:"maxr"`
+	P    float32 `json:"p,omitempty"` // RandomFail / RandomPanic probability
 }
 
 type c19Res struct {
@@ -91,6 +92,7 @@ type c19Case struct {
 	Init   c19V      `json:"init"`
 	Invs   []c19Inv  `json:"invs"`
 	NInv   int       `json:"ninv"`
+	X      *c19X     `json:"x,omitempty"`
 
 	mu      sync.Mutex
 	msg     *message.Message
@@ -255,6 +257,9 @@ func (c *c19Case) decErr(e error) jv {
 		}
 		return jv{"rec", c.decPV(rp.V)}
 	}
+	if e.Error() == "random fail occurred" {
+		return jv{"base", c19In.ID(e.Error())}
+	}
 	return jv{"unk", c19In.ID("unknown error: " + fmt.Sprintf("%T", e))}
 }
 
@@ -357,6 +362,12 @@ func (g *c19Group) buildOn(mws []c19Mw, inner message.HandlerFunc) message.Handl
 		case "delay":
 			d := &middleware.DelayOnError{InitialInterval: time.Duration(m.Init), MaxInterval: time.Duration(m.Max), Multiplier: float64(m.Num) / float64(m.Den)}
 			h = d.Middleware(h)
+		case "dup":
+			h = middleware.Duplicator(h)
+		case "rfail":
+			h = middleware.RandomFail(m.P)(h)
+		case "rpanic":
+			h = middleware.RandomPanic(m.P)(h)
 		case "retry":
 			r := middleware.Retry{MaxRetries: m.MaxR, InitialInterval: time.Millisecond, MaxInterval: time.Millisecond, Multiplier: 1,
 				RandomizationFactor: 0, OnRetryHook: func(n int, _ time.Duration) {
@@ -815,10 +826,51 @@ func c19Deadline(g *c19Gen) c19DL {
 	return res
 }
 
+// ---- Duplicator / RandomFail / RandomPanic between two chains of simple middlewares
+
+type c19X struct {
+	K    string  `json:"k"` // dup rfail rpanic
+	P    float32 `json:"p"`
+	Pre  []c19Mw `json:"pre"`
+	Post []c19Mw `json:"post"`
+	Hits []bool  `json:"hits"` // per invocation: rand.Float32() <= p (math/rand seeded per invocation, mirrored)
+}
+
+func c19RunExtra(g *c19Gen, gi int) *c19Case {
+	r := g.r
+	simple := []string{"timeout", "corr", "rec", "ign", "ack", "thr", "cb", "delay"}
+	x := &c19X{K: []string{"dup", "dup", "rfail", "rpanic"}[r.Intn(4)], P: []float32{0, 0.25, 0.5, 0.75, 1}[r.Intn(5)], Pre: []c19Mw{}, Post: []c19Mw{}}
+	for n := r.Intn(3); n > 0; n-- {
+		x.Pre = append(x.Pre, g.mw(simple[r.Intn(len(simple))]))
+	}
+	for n := r.Intn(3); n > 0; n-- {
+		x.Post = append(x.Post, g.mw(simple[r.Intn(len(simple))]))
+	}
+	mws := append(append(append([]c19Mw{}, x.Pre...), c19Mw{K: x.K, P: x.P}), x.Post...)
+	grp := &c19Group{cases: map[string]*c19Case{}, want: 1, rel: make(chan struct{})}
+	c := g.newCase(grp, gi, 1, mws, false)
+	c.X = x
+	grp.cases[c.uuid] = c
+	h := grp.build(mws)
+	for i := 0; i < c.NInv; i++ {
+		k := r.Int63()
+		rand.Seed(k) //nolint:staticcheck // the middleware draws from the global source
+		hit := false
+		if x.K != "dup" {
+			hit = rand.New(rand.NewSource(k)).Float32() <= x.P
+		}
+		x.Hits = append(x.Hits, hit)
+		c.invoke(h)
+	}
+	c.cancel()
+	return c
+}
+
 func runC19(args []string) error {
 	fs, out, seed := newFlags("c19")
 	n := fs.Int("n", 500, "number of groups")
 	thr := fs.Int("thr", 5, "number of Throttle timing scenarios")
+	nx := fs.Int("extra", 160, "number of Duplicator / RandomFail / RandomPanic cases")
 	ndl := fs.Int("dl", 6, "number of blocking-handler deadline scenarios")
 	witness := fs.Bool("witness", false, "prepend the D2/D3 witnesses")
 	_ = fs.Parse(args)
@@ -829,6 +881,8 @@ func runC19(args []string) error {
 	for _, t := range c19ErrTexts {
 		c19In.ID(t)
 	}
+	c19In.ID("random fail occurred")  // 10 = Simple/Extra.v T_RFAIL
+	c19In.ID("random panic occurred") // 11 = T_RPANIC
 	g := &c19Gen{r: rand.New(rand.NewSource(*seed))}
 	var all []*c19Case
 	gi := 0
@@ -874,7 +928,12 @@ func runC19(args []string) error {
 	for i := 0; i < *ndl; i++ {
 		dls = append(dls, c19Deadline(g))
 	}
-	return writeJSON(*out, map[string]interface{}{"cases": all, "throttle": thrs, "deadline": dls, "strings": c19In.Tab})
+	var extra []*c19Case
+	for i := 0; i < *nx; i++ {
+		extra = append(extra, c19RunExtra(g, gi))
+		gi++
+	}
+	return writeJSON(*out, map[string]interface{}{"cases": all, "extra": extra, "throttle": thrs, "deadline": dls, "strings": c19In.Tab})
 }
 
 func init() { register("c19", runC19) }
